@@ -66,6 +66,8 @@ def run_shard(shard):
                 symlink_family(st, wd)
                 new_target_family(st, wd)
                 later_document_family(st, wd)
+                output_file_family(st, wd)
+                other_target_family(st, wd)
         elif shard[0] == "save":
             save_faults(st, wd, shard[1], shard[2], pairs=False)
         else:
@@ -160,6 +162,73 @@ def later_document_family(st, wd):
                                                  "backup": backup,
                                                  "stale_bak": stale,
                                                  "later_document": True})
+    reset(wd, {})
+
+
+def output_file_family(st, wd):
+    """yaml-merge --output=NEW whose result cannot be presented (the format
+    is chosen by the FIRST result document; a later one holds a key JSON
+    cannot express): the run fails and no output file has appeared."""
+    lhs = '{"a": 1}\n---\n? [a, b]\n: 1\n'
+    rhs = "x: 1\n---\ny: 2\n"
+    for name in ("new.out", "new.json", "new.yaml"):
+        for mode in ("merge_across", "matrix_merge"):
+            reset(wd, {"lhs.yaml": lhs, "rhs.yaml": rhs})
+            before = snapshot(wd)
+            argv = ["--nostdin", "--multi-doc-mode=" + mode,
+                    "--output=" + os.path.join(wd, name),
+                    os.path.join(wd, "lhs.yaml"), os.path.join(wd, "rhs.yaml")]
+            res = cli.run("yaml-merge", argv, cwd=wd)
+            if res.code == 0 and res.exc is None:
+                st.extra["result_presentable_after_all"] += 1
+                continue
+            judge_refusal(st, "yaml-merge",
+                          "result-later-document-unpresentable-in-output",
+                          res, before, snapshot(wd),
+                          {"doc": lhs, "rhs": rhs, "argv": argv[1:3],
+                           "backup": False, "stale_bak": False,
+                           "output_file": name})
+    reset(wd, {})
+
+
+def other_target_family(st, wd):
+    """yaml-merge --overwrite=FILE --backup where FILE exists and is NOT the
+    left-most input (a result regenerated from its sources, or the right-hand
+    file): FILE.bak is a copy of FILE's pre-image, of no other file."""
+    lhs, rhs = "a: 1\nc:\n  d: old\n", "c:\n  d: merged\n"
+    old = "# kept result\nprevious: result\n"
+    for target, inputs in (("result.yaml", ("lhs.yaml", "rhs.yaml")),
+                           ("rhs.yaml", ("lhs.yaml", "rhs.yaml"))):
+        for stale in (False, True):
+            files = {"lhs.yaml": lhs, "rhs.yaml": rhs}
+            if target not in files:
+                files[target] = old
+            if stale:
+                files[target + ".bak"] = STALE
+            reset(wd, files)
+            pre = files[target].encode()
+            argv = ["--nostdin", "--overwrite=" + os.path.join(wd, target),
+                    "--backup"] + [os.path.join(wd, n) for n in inputs]
+            res = cli.run("yaml-merge", argv, cwd=wd)
+            st.evaluations += 1
+            st.transitions += 1
+            st.validated += 1
+            st.states += 1
+            case = {"tool": "yaml-merge", "doc": lhs, "stale_bak": stale,
+                    "other_target": target, "cause": None, "fault": None}
+            st.sig("other-target", target, stale)
+            after = snapshot(wd)
+            if res.code != 0 or res.exc is not None:
+                st.fail("yaml-merge|other-overwrite-target|run-failed", case,
+                        "exit 0", repr(res)[:200])
+            elif after.get(target + ".bak") != pre:
+                st.fail("yaml-merge|other-overwrite-target|"
+                        "backup-not-the-pre-image", case, repr(pre)[:80],
+                        repr(after.get(target + ".bak"))[:120])
+            elif b"merged" not in (after.get(target) or b""):
+                st.fail("yaml-merge|other-overwrite-target|nothing-written",
+                        case, "the merge in " + target,
+                        repr(after.get(target))[:120])
     reset(wd, {})
 
 
@@ -487,7 +556,11 @@ def one_fault(st, wd, tool, argv, base, tname, original, stale, k, kind,
 def replay(case):
     st = core.Stats(None)
     with cli.workdir("vkit-c17-") as wd:
-        if case.get("later_document"):
+        if case.get("output_file"):
+            output_file_family(st, wd)
+        elif case.get("other_target"):
+            other_target_family(st, wd)
+        elif case.get("later_document"):
             later_document_family(st, wd)
         elif case.get("new_target"):
             new_target_family(st, wd)
